@@ -4,6 +4,7 @@ import (
 	"fmt"
 	"math"
 	"math/big"
+	"strings"
 	"time"
 )
 
@@ -12,20 +13,21 @@ type radicand struct {
 	class    string
 	num, den *big.Int
 	minK     int // read at least this many digits (0 = any)
+	allCtors bool // run through every constructor of every version (the result depends on the value only)
 }
 
 func rootRadicands(r *rng, deg int, count int, tier string) []radicand {
 	var out []radicand
 	add := func(class string, num, den *big.Int) {
-		out = append(out, radicand{class, num, den, 0})
+		out = append(out, radicand{class, num, den, 0, false})
 	}
 	// terminating roots with exactly 100·j digits: the end marker is the first value of a new block
 	for j := 1; j <= 2; j++ {
 		for _, c := range []int64{1, 7} {
 			a := new(big.Int).Add(pow(10, 100*j-1), big.NewInt(c))
 			p := new(big.Int).Exp(a, big.NewInt(int64(deg)), nil)
-			out = append(out, radicand{"len100k", p, big.NewInt(1), 100*j + 20})
-			out = append(out, radicand{"len100k", p, pow(10, deg*(40+r.intn(30))), 100*j + 20})
+			out = append(out, radicand{"len100k", p, big.NewInt(1), 100*j + 20, false})
+			out = append(out, radicand{"len100k", p, pow(10, deg*(40+r.intn(30))), 100*j + 20, false})
 		}
 	}
 	one := big.NewInt(1)
@@ -76,6 +78,32 @@ func rootRadicands(r *rng, deg int, count int, tier string) []radicand {
 		add("wordsize", new(big.Int).Sub(d, big.NewInt(int64(1+r.intn(9)))), d)                           // remainder ≈ denominator
 		add("wordsize", new(big.Int).Rsh(new(big.Int).Mul(d, big.NewInt(int64(2+r.intn(7)))), 3), nearTop) // mid-size remainders, denominator 2^bits - c
 		add("wordsize", big.NewInt(int64(1+r.intn(50))), d)
+	}
+	// word-size perfect powers and their neighbours, always present, through EVERY constructor: a
+	// machine-float or machine-word short cut in one constructor is exact below 2^53 and wrong
+	// (or right by luck) above — 10^18 ± 1, (2^31)^2 + 1, k^deg ± 1 for random k at every size
+	{
+		var ks []*big.Int
+		if deg == 2 {
+			ks = append(ks, pow(10, 9), new(big.Int).Lsh(one, 31), big.NewInt(3037000499)) // floor(sqrt(MaxInt64))
+		} else {
+			ks = append(ks, pow(10, 6), new(big.Int).Lsh(one, 21), big.NewInt(2097151)) // floor(cbrt(MaxInt64))
+		}
+		for bits := 51; bits <= 62; bits += 2 {
+			kb := bits / deg
+			k := new(big.Int).Lsh(one, uint(kb))
+			k.Add(k, new(big.Int).Rsh(new(big.Int).SetUint64(r.next()), uint(64-kb)))
+			ks = append(ks, k)
+		}
+		for _, k := range ks {
+			p := new(big.Int).Exp(k, big.NewInt(int64(deg)), nil)
+			for _, d := range []int64{-1, 0, 1} {
+				x := new(big.Int).Add(p, big.NewInt(d))
+				if x.Sign() > 0 && x.IsInt64() {
+					out = append(out, radicand{"wordpower", x, one, 0, true})
+				}
+			}
+		}
 	}
 	for len(out) < count {
 		switch r.intn(14) {
@@ -256,6 +284,17 @@ func genRoots(e *emitter, r *rng, tier string, degs []int) {
 				k = rd.minK
 			}
 			cs := ctorsFor(rd.num, rd.den)
+			if rd.allCtors {
+				if tier == "quick" {
+					k = min(k, 50)
+				}
+				for v := 1; v <= 3; v++ {
+					for _, c := range cs {
+						emitRootLine(e, v, deg, c, rd, k, 1)
+					}
+				}
+				continue
+			}
 			// every version, one constructor each (rotating), plus occasionally all constructors
 			for v := 1; v <= 3; v++ {
 				ctor := cs[r.intn(len(cs))]
@@ -281,7 +320,7 @@ func genRoots(e *emitter, r *rng, tier string, degs []int) {
 		// a few deep runs: 20000 digits
 		for _, deg := range degs {
 			for _, x := range []int64{2, 3, 7} {
-				rd := radicand{"deep", big.NewInt(x), big.NewInt(1), 0}
+				rd := radicand{"deep", big.NewInt(x), big.NewInt(1), 0, false}
 				for v := 1; v <= 3; v++ {
 					emitRootLine(e, v, deg, "i64", rd, 20000, 1)
 				}
@@ -290,8 +329,41 @@ func genRoots(e *emitter, r *rng, tier string, degs []int) {
 	}
 }
 
+// genEndProbes (C03): terminating roots asked about positions at, just beyond and far beyond their
+// end — first thing on a fresh Number as well as after reading — and never-ending ones asked far out
+func genEndProbes(e *emitter, r *rng, tier string) {
+	n := 40
+	if tier == "thorough" {
+		n = 400
+	}
+	for i := 0; i < n; i++ {
+		deg := 2 + r.intn(2)
+		a := int64(2 + r.intn(99999))
+		for a%10 == 0 {
+			a++
+		}
+		L := len(fmt.Sprint(a))
+		p := new(big.Int).Exp(big.NewInt(a), big.NewInt(int64(deg)), nil)
+		q := pow(10, deg*r.intn(4))
+		kind := "S"
+		if deg == 3 {
+			kind = "C"
+		}
+		far := []int{L, L + 1, L + 99, 100, 1000, maxInt - 1, maxInt}
+		var st []string
+		for j := 0; j < 4; j++ {
+			st = append(st, fmt.Sprintf("at:0:%d", far[r.intn(len(far))]))
+		}
+		st = append(st, fmt.Sprintf("fwd:0:%d", L+5), fmt.Sprintf("at:0:%d", L-1), fmt.Sprintf("at:0:%d", L), "nd:0", fmt.Sprintf("back:0:%d", L+5))
+		for v := 1; v <= 3; v++ {
+			emitScriptLine(e, v, fmt.Sprintf("%s:%s:%s", kind, p, q), strings.Join(st, ";"))
+		}
+		e.count("C03.endprobe")
+	}
+}
+
 func init() {
 	groups["C01"] = func(e *emitter, r *rng, tier string) { genRoots(e, r, tier, []int{2}) }
 	groups["C02"] = func(e *emitter, r *rng, tier string) { genRoots(e, r, tier, []int{3}) }
-	groups["C03"] = func(e *emitter, r *rng, tier string) { genRoots(e, r, tier, []int{2, 3}) }
+	groups["C03"] = func(e *emitter, r *rng, tier string) { genRoots(e, r, tier, []int{2, 3}); genEndProbes(e, r, tier) }
 }
